@@ -37,6 +37,10 @@ type Engine[S any, O any] struct {
 	OpName func(op O) string
 	// StopAtFirst stops the search at the first violation (default: collect up to MaxViolations).
 	MaxViolations int
+	// RootShard/RootShards: this engine instance only takes the operations i of the initial state with
+	// i % RootShards == RootShard (the subtrees below different first operations are explored by different
+	// processes; states are then de-duplicated per shard only).
+	RootShard, RootShards int
 }
 
 type Violation[O any] struct {
@@ -109,6 +113,9 @@ func (e *Engine[S, O]) Run() *Result[O] {
 					ops := e.Enabled(n.st, n.hist)
 					ss := make([]succ[S, O], 0, len(ops))
 					for oi, op := range ops {
+						if depth == 0 && e.RootShards > 1 && oi%e.RootShards != e.RootShard {
+							continue
+						}
 						r := e.Step(w, n.hist, n.st, op)
 						ss = append(ss, succ[S, O]{parent: ni, opi: oi, op: op, res: r})
 					}
